@@ -359,10 +359,10 @@ C11_Sib(sel(_)) == { [r EXCEPT !.prop = "C11"] : r \in UNION {C02_Class(m) : m \
 \* concrete-syntax styles under which the emitted bytes must not change (applied token-wise by the harness)
 StyleDims == [ case   : {"lower", "upper", "mixed"},
                sep    : {"space", "tab", "spaces"},
-               comma  : {",", ", ", " , ", ",tab"},
-               brack  : {"tight", "spaced", "uneven"},
-               indent : {"", "  ", "tab"},
-               trail  : {"", " ", " ; comment", ";c", "tab; x"},
+               comma  : {",", ", ", " , ", ",tab", ",wide"},
+               brack  : {"tight", "spaced", "uneven", "wide"},
+               indent : {"", "  ", "tab", "wide"},
+               trail  : {"", " ", " ; comment", ";c", "tab; x", "wide", "wide; c"},   \* "wide": more blanks than a line may hold characters
                eol    : {"none", "lf", "crlf"},
                zeros  : {"asis", "lead"},
                radix  : {"asis", "swap"} ]
@@ -374,7 +374,8 @@ Styles2(zz) == {st \in StyleDims : Cardinality(Changed(st)) <= 2}
 Styles3(zz) == {st \in StyleDims : Cardinality(Changed(st)) = 3}
 \* program decorations: lines that emit nothing
 DecorLines == { <<"">>, <<" ">>, <<"; only a comment">>, <<"label:">>, <<"  loop_1:">>, <<"section .text">>, <<"SECTION .data">>,
-                <<"global main">>, <<"GLOBAL _start">>, <<"% macro-like">>, <<"<09>", "; c">>, <<"   ", "; indented comment">> }
+                <<"global main">>, <<"GLOBAL _start">>, <<"% macro-like">>, <<"<09>", "; c">>, <<"   ", "; indented comment">>,
+                [k \in 1..130 |-> " "], <<";">> \o [k \in 1..150 |-> "c"], [k \in 1..110 |-> " "] \o <<"; c">> }
 
 (* ============================= selection ================================ *)
 Selected == CASE IOEnv.CORPUS = "C01" -> CorpusC01(0)
